@@ -14,8 +14,19 @@ FIELD_TYPES = [
 ]
 
 
+NOISE = ['#[allow(unused)] ', '#[doc = "d"] ', '#[rust_cc()] ', '#[cfg(all())] ']
+
+
 def gen(seed, n):
     r = random.Random(seed)
+
+    def ig_attr(ig):
+        """The attributes in front of a field / variant: the `ignore` marker (if any) in any position among other attributes."""
+        pre = "".join(r.choice(NOISE) for _ in range(r.choice([0, 0, 0, 1, 2])))
+        post = "".join(r.choice(NOISE) for _ in range(r.choice([0, 0, 1, 1, 2])))
+        if ig:
+            return pre + "#[rust_cc(ignore)] " + post
+        return pre if r.random() < 0.5 else ""
     defs = []
     cases = []   # (case id, type expr to build, number of fields)
     model = []   # lines for the model
@@ -23,7 +34,8 @@ def gen(seed, n):
         name = "T%d" % i
         kind = r.choice(["named", "tuple", "unit", "enum", "enum", "generic"])
         no_drop = r.random() < 0.25
-        attrs = "#[derive(Trace, Finalize)]\n" + ("#[rust_cc(unsafe_no_drop)]\n" if no_drop else "")
+        attrs = "#[derive(Trace, Finalize)]\n" + (r.choice(["", "#[allow(dead_code)]\n"]) + "#[rust_cc(unsafe_no_drop)]\n" +
+                                                  r.choice(["", "#[allow(dead_code)]\n", "#[doc = \"d\"]\n"]) if no_drop else "")
 
         def fields(nf):
             out = []
@@ -33,10 +45,10 @@ def gen(seed, n):
             return out
 
         def decl_named(fs):
-            return "{ " + ", ".join(("#[rust_cc(ignore)] " if ig else "") + "f%d: %s" % (j, ty) for j, (ig, ty, _) in enumerate(fs)) + " }"
+            return "{ " + ", ".join(ig_attr(ig) + "f%d: %s" % (j, ty) for j, (ig, ty, _) in enumerate(fs)) + " }"
 
         def decl_tuple(fs):
-            return "(" + ", ".join(("#[rust_cc(ignore)] " if ig else "") + ty for (ig, ty, _) in fs) + ")"
+            return "(" + ", ".join(ig_attr(ig) + ty for (ig, ty, _) in fs) + ")"
 
         def build_named(fs):
             return "{ " + ", ".join("f%d: %s" % (j, ctor.format(leaf="mk()")) for j, (_, _, ctor) in enumerate(fs)) + " }"
@@ -64,7 +76,7 @@ def gen(seed, n):
         elif kind == "generic":
             fs = fields(r.randrange(0, 5))
             ig = r.random() < 0.3
-            body = "{ " + ("#[rust_cc(ignore)] " if ig else "") + "g: X" + "".join(", " + ("#[rust_cc(ignore)] " if g else "") + "f%d: %s" % (j, ty) for j, (g, ty, _) in enumerate(fs)) + " }"
+            body = "{ " + ig_attr(ig) + "g: X" + "".join(", " + ig_attr(g) + "f%d: %s" % (j, ty) for j, (g, ty, _) in enumerate(fs)) + " }"
             defs.append(attrs + "struct %s<X: Trace + 'static> %s" % (name, body))
             build = "%s::<Cc<DLeaf>> { g: mk()%s }" % (name, "".join(", f%d: %s" % (j, ctor.format(leaf="mk()")) for j, (_, _, ctor) in enumerate(fs)))
             cases.append(("t%d" % i, build, len(fs) + 1))
@@ -77,7 +89,7 @@ def gen(seed, n):
                 vk = r.choice(["named", "tuple", "unit"])
                 vig = r.random() < 0.3
                 fs = [] if vk == "unit" else fields(r.randrange(1, 5))
-                pre = "#[rust_cc(ignore)] " if vig else ""
+                pre = ig_attr(vig)
                 if vk == "named":
                     vdecl.append(pre + "V%d %s" % (v, decl_named(fs)))
                 elif vk == "tuple":
